@@ -70,6 +70,59 @@ package graphalg
 // Dominators (C19).
 // anc(idom, x, a): a is on the idom-chain starting at x (x itself included).
 //@ spec anc(idom []int, x int, a int) bool = x == a || (0 <= x && x < len(idom) && anc(idom, idom[x], a))
+// ancR: the same chain, but the root is the end of every chain whatever idom[root]
+// holds (during IDom's iteration it is root itself, in the result -1).
+//@ spec ancR(idom []int, root int, x int, a int) bool = x == a || (x == root && a == -1) || (0 <= x && x < len(idom) && x != root && ancR(idom, root, idom[x], a))
+// premises of the chain lemmas: processed nodes point to processed nodes with a
+// larger post-order number; the root has the largest
+//@ spec chainUp(idom []int, poNum []int, root int) bool = len(poNum) == len(idom) && 0 <= root && root < len(idom) && idom[root] != -1 &&
+//@     (forall x in 0..len(idom) @[idom[x]] :: idom[x] != -1 && x != root ==> 0 <= idom[x] && idom[x] < len(idom) && poNum[idom[x]] > poNum[x]) &&
+//@     (forall x in 0..len(idom), y in 0..len(idom) @[idom[x], idom[y]] :: idom[x] == y ==> idom[y] != -1) &&
+//@     (forall x in 0..len(idom) @[poNum[x]] :: poNum[x] <= poNum[root])
+//@ lemma ancR_step(idom []int, poNum []int, root int, x int, a int, d int) induction d
+//@   model int
+//@   requires chainUp(idom, poNum, root) && 0 <= x && x < len(idom) && idom[x] != -1 && 0 <= a && a < len(idom) && idom[a] != -1 && a != root && ancR(idom[root := -1], root, x, a) && poNum[root] - poNum[x] <= d
+//@   ensures ancR(idom[root := -1], root, x, idom[a])
+//@ lemma ancR_trans(idom []int, poNum []int, root int, x int, y int, z int, d int) induction d
+//@   model int
+//@   requires chainUp(idom, poNum, root) && 0 <= x && x < len(idom) && idom[x] != -1 && ancR(idom[root := -1], root, x, y) && ancR(idom[root := -1], root, y, z) && poNum[root] - poNum[x] <= d
+//@   ensures ancR(idom[root := -1], root, x, z)
+//@ lemma ancR_trans0(idom []int, poNum []int, root int, x int, y int, z int)
+//@   by ancR_trans(idom, poNum, root, x, y, z, poNum[root] - poNum[x])
+//@   model int
+//@   requires chainUp(idom, poNum, root) && 0 <= x && x < len(idom) && idom[x] != -1 && ancR(idom[root := -1], root, x, y) && ancR(idom[root := -1], root, y, z)
+//@   ensures ancR(idom[root := -1], root, x, z)
+//@   trigger ancR(idom[root := -1], root, x, y), ancR(idom[root := -1], root, y, z)
+// every processed node's chain reaches the root
+//@ lemma reach_root(idom []int, poNum []int, root int, x int, d int) induction d
+//@   model int
+//@   requires chainUp(idom, poNum, root) && 0 <= x && x < len(idom) && idom[x] != -1 && poNum[root] - poNum[x] <= d
+//@   ensures ancR(idom[root := -1], root, x, root)
+//@ lemma reach_root0(idom []int, poNum []int, root int, x int)
+//@   by reach_root(idom, poNum, root, x, poNum[root] - poNum[x]), ancR_trans(idom, poNum, root, x, root, -1, poNum[root] - poNum[x])
+//@   model int
+//@   requires chainUp(idom, poNum, root) && 0 <= x && x < len(idom) && idom[x] != -1
+//@   ensures ancR(idom[root := -1], root, x, root) && ancR(idom[root := -1], root, x, -1)
+//@   trigger idom[x], idom[root], poNum[x]
+// the two-finger meet lies on both chains
+//@ lemma isect_anc(idom []int, poNum []int, root int, b1 int, b2 int, d int) induction d
+//@   use ancR_step
+//@   model int
+//@   requires chainUp(idom, poNum, root) && idom[root] == root && 0 <= b1 && b1 < len(idom) && idom[b1] != -1 && 0 <= b2 && b2 < len(idom) && idom[b2] != -1 && 2 * poNum[root] - poNum[b1] - poNum[b2] <= d
+//@   ensures ancR(idom[root := -1], root, b1, isect(idom, poNum, b1, b2)) && ancR(idom[root := -1], root, b2, isect(idom, poNum, b1, b2)) && 0 <= isect(idom, poNum, b1, b2) && isect(idom, poNum, b1, b2) < len(idom) && idom[isect(idom, poNum, b1, b2)] != -1
+//@ lemma isect_anc0(idom []int, poNum []int, root int, b1 int, b2 int)
+//@   by isect_anc(idom, poNum, root, b1, b2, 2 * poNum[root] - poNum[b1] - poNum[b2])
+//@   model int
+//@   requires chainUp(idom, poNum, root) && idom[root] == root && 0 <= b1 && b1 < len(idom) && idom[b1] != -1 && 0 <= b2 && b2 < len(idom) && idom[b2] != -1
+//@   ensures ancR(idom[root := -1], root, b1, isect(idom, poNum, b1, b2)) && ancR(idom[root := -1], root, b2, isect(idom, poNum, b1, b2))
+// ... and so does everything below its second argument
+//@ lemma isect_anc1(idom []int, poNum []int, root int, b1 int, b2 int, x int)
+//@   by isect_anc(idom, poNum, root, b1, b2, 2 * poNum[root] - poNum[b1] - poNum[b2]), ancR_trans(idom, poNum, root, x, b2, isect(idom, poNum, b1, b2), poNum[root] - poNum[x])
+//@   model int
+//@   requires chainUp(idom, poNum, root) && idom[root] == root && 0 <= b1 && b1 < len(idom) && idom[b1] != -1 && 0 <= b2 && b2 < len(idom) && idom[b2] != -1 && 0 <= x && x < len(idom) && idom[x] != -1 && ancR(idom[root := -1], root, x, b2)
+//@   ensures ancR(idom[root := -1], root, b1, isect(idom, poNum, b1, b2)) && ancR(idom[root := -1], root, x, isect(idom, poNum, b1, b2))
+//@   trigger isect(idom, poNum, b1, b2), ancR(idom[root := -1], root, x, b2)
+
 
 // Well-formed flow graph: predecessor lists name valid nodes.
 //@ spec wfBi(g graph.BiGraph) bool = g.NumNodes() >= 0 && (forall b in 0..g.NumNodes(), k in 0..len(g.In(b)) :: 0 <= g.In(b)[k] && g.In(b)[k] < g.NumNodes())
@@ -81,7 +134,7 @@ package graphalg
 //@ spec idomShape(g graph.BiGraph, root int, idom []int) bool =
 //@     len(idom) == g.NumNodes() && (forall x in 0..len(idom) :: -1 <= idom[x] && idom[x] < len(idom)) && idom[root] == -1
 //@ spec idomChains(g graph.BiGraph, root int, idom []int) bool =
-//@     (forall b in 0..len(idom), k in 0..len(g.In(b)) :: (b == root || idom[b] != -1) && (g.In(b)[k] == root || idom[g.In(b)[k]] != -1) ==> anc(idom, g.In(b)[k], idom[b]))
+//@     (forall b in 0..len(idom), k in 0..len(g.In(b)) :: (b == root || idom[b] != -1) && (g.In(b)[k] == root || idom[g.In(b)[k]] != -1) ==> ancR(idom, root, g.In(b)[k], idom[b]))
 //@ spec isIDom(g graph.BiGraph, root int, idom []int) bool = idomShape(g, root, idom) && idomChains(g, root, idom)
 
 // The Cooper-Harvey-Kennedy iteration. chainOK is the invariant that keeps
@@ -114,47 +167,62 @@ package graphalg
 // predecessors exists and has a larger post-order number - the node's parent in
 // the depth-first tree precedes it in reverse post-order (PostOrder's
 // postcondition `parent`), is one of its listed predecessors (inOutOK) and was
-// processed earlier in the same pass; and that the loop ends at a fixpoint of
-// the CHK equations (assert fixpoint). That the fixpoint is the dominator tree
-// (idomChains and the rest of C19's statement) is NOT proved: idomChains is
-// exported as an assumed postcondition.
+// processed earlier in the same pass; that the loop ends at a fixpoint of the
+// CHK equations (assert fixpoint); and idomChains - at the fixpoint the
+// candidate of every node lies on the (root-masked) idom-chain of each of its
+// processed predecessors: the two-finger meet lies on both chains (lemma
+// isect_anc, induction on post-order numbers), chains compose (ancR_trans) and
+// reach the root (reach_root); chain facts are stated over idom[root := -1],
+// which is literally the array the function returns. That the fixpoint is the
+// dominator tree in the graph-theoretic sense is NOT proved.
 // In lists every predecessor: p -> Out(p)[e] implies p is in In(Out(p)[e])
 //@ spec inOutOK(g graph.BiGraph) bool = forall p in 0..g.NumNodes(), e in 0..len(g.Out(p)) :: (exists f in 0..len(g.In(g.Out(p)[e])) :: g.In(g.Out(p)[e])[f] == p)
 //@ spec biReq(g graph.BiGraph) bool = wfBi(g) && wfG(g) && inOutOK(g) && (forall x int :: !fresh(g.Out(x)) && !fresh(g.In(x)))
 // every node of the reverse post-order but the first has a predecessor earlier in it
 //@ spec rpoParent(g graph.BiGraph, rpo []int) bool = forall q in 1..len(rpo) :: (exists r in 0..q, e in 0..len(g.Out(rpo[r])) :: g.Out(rpo[r])[e] == rpo[q])
 //@ spec idomInv(g graph.BiGraph, root int, idom []int, poNum []int, rpo []int) bool =
-//@     len(idom) == g.NumNodes() && chainOK(idom, poNum) && idom[root] == root && allin(rpo, g.NumNodes()) &&
-//@     (forall x in 0..len(idom) :: -1 <= idom[x] && idom[x] < len(idom))
+//@     len(idom) == g.NumNodes() && chainOK(idom, poNum) && chainUp(idom, poNum, root) && idom[root] == root && allin(rpo, g.NumNodes()) &&
+//@     (forall x in 0..len(idom) :: -1 <= idom[x] && idom[x] < len(idom)) &&
+//@     (forall x in 0..len(idom) @[idom[x]] :: idom[x] != -1 ==> 0 <= poNum[x] && poNum[x] < len(rpo) && rpo[len(rpo) - 1 - poNum[x]] == x)
+// chainsAt: the candidate of node b lies on the chain of every processed predecessor
+//@ spec chainsAt(g graph.BiGraph, root int, idom []int, b int) bool =
+//@     b != root ==> (forall e in 0..len(g.In(b)) :: idom[g.In(b)[e]] != -1 ==> ancR(idom[root := -1], root, g.In(b)[e], idom[b]))
 //@ spec fixAt(g graph.BiGraph, root int, idom []int, poNum []int, b int) bool =
 //@     b != root ==> idom[b] == foldI(idom, poNum, g.In(b), len(g.In(b)))
 
-//@ spec rpoFacts(g graph.BiGraph, root int, rpo []int, poNum []int) bool = len(rpo) >= 1 && rpo[0] == root && nodup(rpo) && (forall q in 0..len(rpo) :: poNum[rpo[q]] == len(rpo) - 1 - q)
+//@ spec rpoFacts(g graph.BiGraph, root int, rpo []int, poNum []int) bool = len(rpo) >= 1 && rpo[0] == root && nodup(rpo) && (forall q in 0..len(rpo) :: poNum[rpo[q]] == len(rpo) - 1 - q) && (forall x in 0..len(poNum) @[poNum[x]] :: 0 <= poNum[x] && poNum[x] <= len(rpo) - 1)
 //@ func IDom
+//@   fuel 1
 //@   model int
 //@   requires biReq(g) && 0 <= root && root < g.NumNodes()
 //@   ensures [shape] idomShape(g, root, result) && fresh(result)
-//@   ensures [assumed dominator-chains] idomChains(g, root, result)
+//@   ensures [dominator-chains] idomChains(g, root, result)
 //@   loop 1 (i) modifies poNum[*]
 //@   loop 1 (i) preserves po[*]
-//@   loop 1 (i) invariant (forall k in 0..len(po)-1 :: (exists j in k+1..len(po), e int, x int :: x == po[j] && 0 <= e && e < len(g.Out(x)) && old(g.Out(x)[e]) == po[k])) && len(poNum) == g.NumNodes() && allin(po, g.NumNodes()) && nodup(po) && len(po) >= 1 && po[len(po)-1] == root && (forall j in 0..i :: poNum[po[j]] == j)
+//@   loop 1 (i) invariant (forall k in 0..len(po)-1 :: (exists j in k+1..len(po), e int, x int :: x == po[j] && 0 <= e && e < len(g.Out(x)) && old(g.Out(x)[e]) == po[k])) && len(poNum) == g.NumNodes() && allin(po, g.NumNodes()) && nodup(po) && len(po) >= 1 && po[len(po)-1] == root && (forall j in 0..i :: poNum[po[j]] == j) && (forall x in 0..len(poNum) :: 0 <= poNum[x] && poNum[x] <= len(po) - 1)
 //@   loop 2 (i) modifies idom[*]
 //@   loop 2 (i) preserves poNum[*], rpo[*]
 //@   loop 2 (i) invariant rpoFacts(g, root, rpo, poNum) && len(idom) == g.NumNodes() && (forall x in 0..i :: idom[x] == -1)
 //@   loop 3 modifies idom[*]
 //@   loop 3 preserves poNum[*], rpo[*]
-//@   loop 3 invariant rpoFacts(g, root, rpo, poNum) && idomInv(g, root, idom, poNum, rpo) && (!changed ==> (forall j in 0..len(rpo) :: fixAt(g, root, idom, poNum, rpo[j])))
+//@   loop 3 invariant rpoFacts(g, root, rpo, poNum) && idomInv(g, root, idom, poNum, rpo) && (!changed ==> (forall j in 0..len(rpo) :: fixAt(g, root, idom, poNum, rpo[j]) && chainsAt(g, root, idom, rpo[j])))
 //@   loop 4 (b) forget
 //@   loop 4 (b) modifies idom[*]
 //@   loop 4 (b) preserves poNum[*], rpo[*]
-//@   loop 4 (b) invariant rpoFacts(g, root, rpo, poNum) && (forall q in 0.._k :: idom[rpo[q]] != -1) && idomInv(g, root, idom, poNum, rpo) && (!changed ==> (forall j in 0.._k :: fixAt(g, root, idom, poNum, rpo[j])))
+//@   loop 4 (b) invariant rpoFacts(g, root, rpo, poNum) && (forall q in 0.._k :: idom[rpo[q]] != -1) && idomInv(g, root, idom, poNum, rpo) && (!changed ==> (forall j in 0.._k :: fixAt(g, root, idom, poNum, rpo[j]) && chainsAt(g, root, idom, rpo[j])))
 //@   loop 5 (p) modifies nothing
 //@   loop 5 (p) preserves poNum[*], rpo[*], idom[*]
-//@   loop 5 (p) invariant (forall e in 0.._k :: idom[g.In(b)[e]] != -1 ==> newIdom != -1 && poNum[newIdom] >= poNum[g.In(b)[e]]) && newIdom == foldI(idom, poNum, g.In(b), _k) && (newIdom == -1 || (0 <= newIdom && newIdom < len(idom) && idom[newIdom] != -1))
+//@   loop 5 (p) invariant chainUp(idom, poNum, root) && idom[root] == root && (newIdom != -1 ==> ancR(idom[root := -1], root, newIdom, newIdom)) && newIdom == foldI(idom, poNum, g.In(b), _k) && (newIdom == -1 || (0 <= newIdom && newIdom < len(idom) && idom[newIdom] != -1))
+//@   loop 5 (p) invariant [anc] forall e in 0.._k :: idom[g.In(b)[e]] != -1 ==> newIdom != -1 && poNum[newIdom] >= poNum[g.In(b)[e]] && ancR(idom[root := -1], root, g.In(b)[e], newIdom)
+//@   assert @loop5:end [anc-step] forall e in 0.._k5 :: idom[g.In(b)[e]] != -1 && idom[p] != -1 && foldI(idom, poNum, g.In(b), _k5) != -1 ==> ancR(idom[root := -1], root, g.In(b)[e], isect(idom, poNum, p, foldI(idom, poNum, g.In(b), _k5))) && ancR(idom[root := -1], root, p, isect(idom, poNum, p, foldI(idom, poNum, g.In(b), _k5))) by isect_anc1(idom, poNum, root, p, foldI(idom, poNum, g.In(b), _k5), g.In(b)[e])
+//@   assert @loop5:end [anc-step-p] idom[p] != -1 && foldI(idom, poNum, g.In(b), _k5) != -1 ==> ancR(idom[root := -1], root, p, isect(idom, poNum, p, foldI(idom, poNum, g.In(b), _k5))) by isect_anc0(idom, poNum, root, p, foldI(idom, poNum, g.In(b), _k5))
 //@   assert @loop2:exit [rpo-parent] forall q in 1..len(rpo) :: (exists r in 0..q, e int, x int :: x == rpo[r] && 0 <= e && e < len(g.Out(x)) && old(g.Out(x)[e]) == rpo[q])
 //@   assert @loop5:exit [parent-listed] exists r in 0.._k4, f in 0..len(g.In(b)) :: g.In(b)[f] == rpo[r]
 //@   assert @loop5:exit [dfs-parent-processed] newIdom != -1 && poNum[newIdom] > poNum[b]
 //@   assert @loop3:exit [fixpoint] forall j in 0..len(rpo) :: fixAt(g, root, idom, poNum, rpo[j])
+//@   assert @loop3:exit [chains]   forall j in 0..len(rpo) :: chainsAt(g, root, idom, rpo[j])
+//@   assert @loop3:exit [chains-root] forall x in 0..len(idom) @[idom[x]] :: idom[x] != -1 ==> ancR(idom[root := -1], root, x, -1) by reach_root0(idom, poNum, root, x)
+//@   assert @loop3:exit [chains-all]  forall b in 0..len(idom), k in 0..len(g.In(b)) :: b != root && idom[b] != -1 && idom[g.In(b)[k]] != -1 ==> ancR(idom[root := -1], root, g.In(b)[k], idom[b])
 //@   assigns nothing
 
 // Membership in a dominance frontier, relative to the idom array: y is a
@@ -190,7 +258,7 @@ package graphalg
 //@   loop 2 (pred) invariant dfShape(df, idom, g.NumNodes()) && dfSound(g, root, idom, df) && dfDone(g, root, idom, df, b) && (forall kk in 0.._k, x in 0..len(df) :: reach(idom, root, preds[kk]) && between(idom, preds[kk], x, bdom) ==> has(df[x], b))
 //@   loop 3 forget
 //@   loop 3 preserves idom[*]
-//@   loop 3 invariant dfShape(df, idom, g.NumNodes()) && dfSound(g, root, idom, df) && dfDone(g, root, idom, df, b) && (forall kk in 0.._k2, x in 0..len(df) :: reach(idom, root, preds[kk]) && between(idom, preds[kk], x, bdom) ==> has(df[x], b)) && anc(idom, runner, bdom) && (runner == bdom || (0 <= runner && runner < len(idom))) && (forall x in 0..len(df) :: between(idom, runner, x, bdom) ==> between(idom, pred, x, bdom)) && (forall x in 0..len(df) :: between(idom, pred, x, bdom) ==> between(idom, runner, x, bdom) || has(df[x], b))
+//@   loop 3 invariant dfShape(df, idom, g.NumNodes()) && dfSound(g, root, idom, df) && dfDone(g, root, idom, df, b) && (forall kk in 0.._k2, x in 0..len(df) :: reach(idom, root, preds[kk]) && between(idom, preds[kk], x, bdom) ==> has(df[x], b)) && ancR(idom, root, runner, bdom) && (runner == bdom || (0 <= runner && runner < len(idom))) && (forall x in 0..len(df) :: between(idom, runner, x, bdom) ==> between(idom, pred, x, bdom)) && (forall x in 0..len(df) :: between(idom, pred, x, bdom) ==> between(idom, runner, x, bdom) || has(df[x], b))
 //@   loop 4 (rdf) invariant forall j in 0.._k :: df[runner][j] != b
 //@   loop 5 (i) preserves idom[*]
 //@   loop 5 (i) invariant len(df) == g.NumNodes() && fresh(df) && (forall x in 0..i :: !isnil(df[x])) && dfSound(g, root, idom, df) && dfDone(g, root, idom, df, len(df))
